@@ -41,10 +41,67 @@ def run(ctx):
     channel_per_batch(ctx, facts)
     index_arith(ctx, facts)
     callers(ctx, facts)
+    total_overwrite(ctx, facts)
     from rules import C15, malsec
     C15.chain(ctx, facts)              # validated_seq_join: each record it yields has requested validation with its own index
     malsec.dzkp_validate_path(ctx, facts, "PATH-verdict")   # "the batch's check has run": the verdict is the proof's verdict
     ctx.assume("tokio::sync::watch delivers the last value sent before a successful changed(); std::sync::Mutex serialises callers")
+
+
+def total_overwrite(ctx, facts):
+    """The declared total decides where the final partial batch (and a channel) closes.  It may be set once, and a
+    specified total may only be relaxed to "indeterminate"; any other second declaration is misuse that must panic,
+    not be taken (silently moving the point at which the last batch closes) nor be ignored."""
+    from vlib import variants as V
+    ctx.rule("TABLE-total: TotalRecords::overwrite evaluated for all 9 (current, new) variant pairs - Unspecified -> v returns the new value; Specified -> Indeterminate returns Indeterminate; every other pair does not return (panic).  Batcher::set_total_records stores exactly overwrite(current, given)")
+    TR = "helpers::TotalRecords"
+    b = facts.bodies.get(TR + "::overwrite")
+    if b is None or TR not in facts.adts:
+        return ctx.missing("TABLE-total", "TotalRecords::overwrite")
+    ctx.count(bodies=1)
+    vn = [v["name"] for v in facts.adts[TR]["variants"]]
+    if vn != ["Unspecified", "Specified", "Indeterminate"]:
+        return ctx.missing("TABLE-total", f"TotalRecords variants Unspecified/Specified/Indeterminate (found {vn})")
+
+    def model(vf, env, bb, t):
+        if (F.callee(t)[0] or "").endswith("Into::into") and flow.expr_of(b, t["args"][0], max_depth=4) == ("arg", 2):
+            return env["L"][2]
+        return NotImplemented
+
+    for i in range(3):
+        for j in range(3):
+            vf = V.VariantFlow(facts, b, call_model=model)
+            env = {"L": {}, "S": {}}
+            env["L"][1] = vf.new_sym(env, "old", TR, [i])
+            env["L"][2] = vf.new_sym(env, "new", TR, [j])
+            vf.run(env)
+            got = []
+            for bb, val, e in vf.return_values():
+                vs = vf.variants_at(e, val)
+                got.append((None if vs is None else frozenset(vs), val))
+            if i == 0:
+                ok = bool(got) and all(val == frozenset(["new"]) for _, val in got)
+                want = "returns the new value"
+            elif i == 1 and j == 2:
+                ok = bool(got) and all(vs == frozenset([2]) for vs, _ in got)
+                want = "returns Indeterminate"
+            else:
+                ok = not got
+                want = "panics"
+            ctx.ob("TABLE-total", f"overwrite:{vn[i]}->{vn[j]}", ok, want if ok else
+                   f"overwrite({vn[i]}, {vn[j]}) should {want.replace('returns', 'return').replace('panics', 'panic')} but " +
+                   ("does not return" if not got else "returns " + ", ".join(sorted({('the new value' if val == frozenset(['new']) else 'the old value' if val == frozenset(['old']) else '/'.join(vn[x] for x in sorted(vs)) if vs else 'an unknown value') for vs, val in got}))) +
+                   ": a second, different total is accepted or dropped silently and the final batch closes at the wrong record", site_of(b))
+    sb = facts.bodies.get(BT + "set_total_records")
+    if sb is None:
+        return ctx.missing("TABLE-total", "Batcher::set_total_records")
+    ctx.count(bodies=1)
+    w = [(bb, st) for bb, idx, st in sb.iter_assigns() if st["p"][0] == 1 and len(st["p"]) > 1 and "total_records" in str(st["p"])]
+    ok = False
+    if len(w) == 1 and w[0][1]["r"]["k"] == "use":
+        e = flow.expr_of(sb, w[0][1]["r"]["o"], max_depth=8)
+        ok = e[0] == "call" and e[1].endswith("TotalRecords::overwrite") and e[2][0] == ("arg", 1, "total_records") and "('arg', 2)" in str(e[2][1])
+    ctx.ob("TABLE-total", "set_total_records:stores-overwrite(current, given)", ok, "self.total_records = self.total_records.overwrite(given)" if ok else "Batcher::set_total_records does not store overwrite(current total, given total): a second declaration replaces the first unchecked or is lost", site_of(sb))
 
 
 def sig(ctx, facts):
@@ -296,38 +353,115 @@ def _aliases(b, local):
     return out
 
 
+def _linear(e, sign=1, out=None):
+    """expression tree -> {atom: coefficient} ('1' is the constant atom); sums and integer constants are decomposed, anything else is an atom"""
+    out = {} if out is None else out
+    e = flow.strip_casts(e)
+    if e[0] == "const" and isinstance(e[1], int):
+        out["1"] = out.get("1", 0) + sign * e[1]
+    elif e[0] == "bin" and e[1].replace("WithOverflow", "") == "Add":
+        _linear(e[2], sign, out)
+        _linear(e[3], sign, out)
+    elif e[0] == "bin" and e[1].replace("WithOverflow", "") == "Sub":
+        _linear(e[2], sign, out)
+        _linear(e[3], -sign, out)
+    else:
+        k = str(e)
+        out[k] = out.get(k, 0) + sign
+    return {k: v for k, v in out.items() if v != 0}
+
+
 def index_sync(ctx, facts):
-    """first_batch is the absolute index of batches[0]: every pop_front on `batches` is followed by exactly
-    one `first_batch += 1` before the next pop / return, and first_batch never moves without a pop."""
-    ctx.rule("INDEX-sync: in Batcher, each batches.pop_front() reaches `first_batch += 1` before any other pop_front or return, and no second increment happens without an intervening pop (first_batch stays the absolute index of batches[0])")
+    """first_batch is the absolute index of batches[0]: along every path of every Batcher function, the number of
+    slots taken off the front of `batches` equals the amount added to `first_batch`.  The batch index derived from it is
+    what a validator is constructed with (it selects, e.g., the PRSS indices of the MAC validator's r, u, w): if
+    first_batch falls behind, a later batch is handed an index that was used before."""
+    ctx.rule("INDEX-sync: in every Batcher function, a forward dataflow of the balance (slots removed from the front of `batches`: pop_front = 1, drain(..n) = n) - (amount added to first_batch), kept as a linear form over the count expressions, has one value per block (paths agree) and is zero at every return; first_batch is only ever written as first_batch + <amount>; no other call removes slots from `batches`")
     ws = flow.field_writes(facts, "first_batch", r"Batcher<")
     ctx.floor("INDEX-sync", "writes to first_batch", len(ws), 1)
-    by_body = {}
-    for (wb, bb, idx, kind, s) in ws:
-        by_body.setdefault(wb.path, (wb, []))[1].append((bb, idx, s))
-        e = flow.expr_of(wb, s["r"]["o"]) if s["r"]["k"] == "use" else ("?",)
-        ok = e[0] == "bin" and e[1] == "Add" and ("const", 1) in (e[2], e[3]) and "first_batch" in flow.field_names_in(e)
-        ctx.ob("INDEX-sync", f"first_batch-write@{wb.root}#{bb}", ok, "first_batch += 1" if ok else f"first_batch := {str(e)[:120]}", site_of(wb, bb, idx))
-    n = 0
+    REMOVERS = re.compile(r"VecDeque::<T, A>::(pop_back|clear|truncate|retain|retain_mut|remove|split_off|swap_remove_front|swap_remove_back|rotate_left|rotate_right|drain|pop_front|push_front|insert)$")
+    n_sites = 0
     for b in facts.non_test_bodies():
         if not b.root.startswith("protocol::context::batcher::Batcher"):
             continue
-        pops = [bb for bb, t in b.calls() if F.call_matches(t, re.compile(r"VecDeque::<T, A>::(pop_front)$")) and "batches" in flow.field_names_in(flow.expr_of(b, t["args"][0]))]
-        incs = [bb for bb, idx, s in by_body.get(b.path, (b, []))[1]]
-        if not pops and not incs:
+        if not (b.local_ty(1) or "").startswith("&"):
+            continue            # takes the batcher by value (into_single_batch): nothing is left to keep in step
+        delta_stmt, delta_call, bad_here = {}, {}, []
+        for (wb, bb, idx, kind, st) in ws:
+            if wb.path != b.path:
+                continue
+            if kind != "assign" or st["r"]["k"] not in ("use", "bin"):
+                bad_here.append((bb, "first_batch is borrowed mutably / written in a form the rule cannot follow"))
+                continue
+            e = flow.expr_of(b, st["r"]["o"]) if st["r"]["k"] == "use" else flow.expr_of(b, {"cp": st["p"]})
+            lin = _linear(e)
+            selfk = [k for k in lin if "first_batch" in k and "'arg', 1" in k]
+            if len(selfk) != 1 or lin[selfk[0]] != 1:
+                bad_here.append((bb, f"first_batch := {str(e)[:100]} (not first_batch + amount)"))
+                continue
+            del lin[selfk[0]]
+            delta_stmt.setdefault(bb, []).append((idx, {k: -v for k, v in lin.items()}))
+        for bb, t in b.calls():
+            if not t["args"] or "batches" not in flow.field_names_in(flow.expr_of(b, t["args"][0], max_depth=6)):
+                continue
+            fn = F.callee(t)[0] or ""
+            m = REMOVERS.search(fn)
+            if not m:
+                continue
+            n_sites += 1
+            if m.group(1) == "pop_front":
+                delta_call[bb] = {"1": 1}
+            elif m.group(1) == "drain":
+                r = flow.expr_of(b, t["args"][1], max_depth=12)
+                amt = None
+                if r[0] == "agg" and str(r[1]).endswith("'RangeTo')"):
+                    amt = r[2][0]
+                elif r[0] == "agg" and str(r[1]).endswith("'Range')") and r[2][0] == ("const", 0):
+                    amt = r[2][1]
+                if amt is None:
+                    bad_here.append((bb, "drain over a range that does not start at the front"))
+                else:
+                    delta_call[bb] = _linear(amt)
+            else:
+                bad_here.append((bb, f"`batches.{m.group(1)}` changes which batch sits at the front without the rule being able to account for it"))
+        if not delta_stmt and not delta_call and not bad_here:
             continue
-        for k, p in enumerate(pops):
-            n += 1
-            reach = flow.reach_avoiding(b, [p], set(incs))
-            bad_pop = [x for x in reach if x in pops]
-            bad_ret = [x for x in reach if b.term(x)["k"] == "ret"]
-            ok = not bad_pop and not bad_ret
-            ctx.ob("INDEX-sync", f"pop=>increment@{b.root}#{k}", ok, "each popped slot advances first_batch" if ok else ("a batch slot is popped and another pop / return is reachable without advancing first_batch: first_batch falls behind the deque and later records are mapped to the wrong batch"), site_of(b, p))
-        for k, i in enumerate(incs):
-            reach = flow.reach_avoiding(b, [i], set(pops))
-            bad = [x for x in reach if x in incs]
-            ctx.ob("INDEX-sync", f"increment=>pop@{b.root}#{k}", not bad, "first_batch advances once per popped slot" if not bad else "first_batch can advance twice without a slot being popped", site_of(b, i))
-    ctx.floor("INDEX-sync", "pop_front sites on batches", n, 1)
+        for bb, why in bad_here:
+            ctx.ob("INDEX-sync", f"accounting@{b.root}", False, why, site_of(b, bb))
+        # forward dataflow of the balance
+        def add(a, d):
+            o = dict(a)
+            for k, v in d.items():
+                o[k] = o.get(k, 0) + v
+            return {k: v for k, v in o.items() if v != 0}
+        state = {0: {}}
+        work = [0]
+        conflict = None
+        while work and conflict is None:
+            bb = work.pop()
+            cur = state[bb]
+            for idx, d in sorted(delta_stmt.get(bb, [])):
+                cur = add(cur, d)
+            if bb in delta_call:
+                cur = add(cur, delta_call[bb])
+            for s_ in b.succs(bb):
+                if b.term(s_)["k"] in ("unreachable", "resume"):
+                    continue
+                if s_ not in state:
+                    state[s_] = cur
+                    work.append(s_)
+                elif state[s_] != cur:
+                    conflict = (s_, state[s_], cur)
+        def show(l):
+            return " + ".join((f"{v}" if k == "1" else f"{v}*[{re.sub(r'[^A-Za-z_:]+', ' ', k)[-60:].strip()}]") for k, v in sorted(l.items())) or "0"
+        if conflict:
+            ctx.ob("INDEX-sync", f"balance@{b.root}", False, f"two paths reach the same point with different (slots removed - first_batch advance): {show(conflict[1])} vs {show(conflict[2])}: first_batch no longer is the absolute index of batches[0]", site_of(b, conflict[0]))
+            continue
+        rets = [bb for bb in state if b.term(bb)["k"] == "ret"]
+        off = [(bb, state[bb]) for bb in rets if state[bb]]
+        ctx.ob("INDEX-sync", f"balance@{b.root}", not off, "slots removed from the front == amount added to first_batch on every path" if not off else
+               f"on return, slots removed from the front of `batches` minus the advance of first_batch is {show(off[0][1])}, not 0: first_batch falls out of step with the queue, and a batch opened later is constructed with an index that was already used (same validator step / PRSS indices twice) or validated batches are reported as outstanding", site_of(b, off[0][0]) if off else site_of(b))
+    ctx.floor("INDEX-sync", "front-removal sites on batches", n_sites, 1)
 
 
 def loud(ctx, facts):
